@@ -15,6 +15,7 @@ import (
 	"strings"
 	"testing"
 	"time"
+	"unicode/utf8"
 
 	"verifharness/mc"
 
@@ -290,25 +291,37 @@ func c14Compare(in *c14Inst, model map[string][]byte, keys []string) string {
 				return fmt.Sprintf("API GET %s: absent key answered %d", keyName(k), rec.Code)
 			}
 		}
-		rec := in.api("GET", "/debug/httpcache?dsn="+url.QueryEscape(in.dsn))
-		var body struct {
-			Keys []string `json:"keys"`
-		}
-		if rec.Code != 200 || json.Unmarshal(rec.Body.Bytes(), &body) != nil {
-			return fmt.Sprintf("API list: status %d body %q", rec.Code, clipStr(rec.Body.String(), 200))
-		}
-		// JSON cannot carry arbitrary bytes: compare after the same lossy encoding
-		var want []string
-		for k := range model {
-			b, _ := json.Marshal(k)
-			var s string
-			_ = json.Unmarshal(b, &s)
-			want = append(want, s)
-		}
-		sort.Strings(want)
-		sort.Strings(body.Keys)
-		if strings.Join(body.Keys, "\x00|") != strings.Join(want, "\x00|") {
-			return fmt.Sprintf("API list = %v, want %v", names(body.Keys), names(want))
+		for _, p := range prefixes {
+			if !utf8.ValidString(p) {
+				continue // not expressible as a query parameter value that survives the round trip
+			}
+			q := "/debug/httpcache?dsn=" + url.QueryEscape(in.dsn)
+			if p != "" {
+				q += "&prefix=" + url.QueryEscape(p)
+			}
+			rec := in.api("GET", q)
+			var body struct {
+				Keys []string `json:"keys"`
+			}
+			if rec.Code != 200 || json.Unmarshal(rec.Body.Bytes(), &body) != nil {
+				return fmt.Sprintf("API list (prefix %s): status %d body %q", keyName(p), rec.Code, clipStr(rec.Body.String(), 200))
+			}
+			// JSON cannot carry arbitrary bytes: compare after the same lossy encoding
+			var want []string
+			for k := range model {
+				if !strings.HasPrefix(k, p) {
+					continue
+				}
+				b, _ := json.Marshal(k)
+				var s string
+				_ = json.Unmarshal(b, &s)
+				want = append(want, s)
+			}
+			sort.Strings(want)
+			sort.Strings(body.Keys)
+			if strings.Join(body.Keys, "\x00|") != strings.Join(want, "\x00|") {
+				return fmt.Sprintf("API list (prefix %s) = %v, want %v", keyName(p), names(body.Keys), names(want))
+			}
 		}
 	}
 	return ""
